@@ -1,4 +1,5 @@
 import Rtsp.Proofs.Peer.ClientHist
+import Rtsp.Proofs.Peer.SessionThm
 /-
 Property C19 — media and control are bound to the negotiated peer.
 
@@ -11,6 +12,7 @@ nothing is bounded.
   UDP, server     fill_injective_mod_v4mapped, server_delivers_iff_registered,
                   foreign_source_no_effect, negotiated_source_effect
   UDP, client     client_filter, client_strict_history, anyport_latches_first, client_foreign_ip_history
+  control         other_ip_rejected_unchanged, other_conn_rejected_unchanged
   structure       facts_hold (the regenerated structural facts the models rely on)
 -/
 namespace Rtsp.Peer.C19
@@ -188,5 +190,90 @@ example :
     let post : List Dgram := [⟨[127,0,0,1], 8000, 30, 3⟩, ⟨[127,0,0,1], 9000, 40, 4⟩]
     (∀ x ∈ pre, ipEqual s.readIP x.ip = false) ∧ ipEqual s.readIP d.ip = true ∧ d.port ≠ 0 ∧
     (s.run (pre ++ d :: post)).delivered = [(40, 9000), (20, 9000)] ∧ (s.run (pre ++ d :: post)).last = 4 := by decide
+
+/-! ## control: who may drive a session -/
+
+/-- a server state used for the non-vacuity examples: connection 0 (10.0.0.5) has set up one media
+over TCP and is playing (the session is pinned to it); connection 1 comes from the same address in its
+IPv4-mapped form, connection 2 from 10.0.0.6 -/
+def svPinned : Server :=
+  let sv := ({} : Server).openConn 0 [10,0,0,5] ""
+  let sv := (sv.request 0 { method := .setup, proto := .tcp, media := 0 } 1).1
+  let sv := (sv.request 0 { method := .play, sid := some 0 } 2).1
+  (sv.openConn 1 [0,0,0,0,0,0,0,0,0,0,0xff,0xff,10,0,0,5] "").openConn 2 [10,0,0,6] ""
+
+/-- **A request that replays a session id from another address is refused and changes nothing.**  For
+every server state, every live connection `c` that is not yet linked to a session, every session `ss`
+whose author address is not `Equal` to `c`'s (or whose zone differs), every method and every other
+request parameter: the answer is 400 and the server afterwards is the server before minus the
+intruding connection (which the error closes) – every session record (state, transport, medias, pin,
+associated connections, last-request time), every other connection and both UDP listener maps are
+literally the same. -/
+theorem other_ip_rejected_unchanged (sv : Server) (c : Conn) (ss : Session) (sid : Nat) (r : Req) (now : Int)
+    (hc : sv.findConn c.id = some c) (hnone : c.session = none)
+    (hs : sv.findSession sid = some ss) (hr : r.sid = some sid)
+    (hforeign : ipEqual c.ip ss.authorIP = false ∨ c.zone ≠ ss.authorZone) :
+    sv.request c.id r now = (sv.dropConn c.id, 400) ∧
+    (sv.request c.id r now).1.sessions = sv.sessions ∧
+    (sv.request c.id r now).1.rtp = sv.rtp ∧ (sv.request c.id r now).1.rtcp = sv.rtcp := by
+  have h := Server.request_other_ip sv c ss sid r now hc hnone hs hr hforeign
+  rw [h]
+  exact ⟨rfl, rfl, rfl, rfl⟩
+
+/-- non-vacuity: connection 2 (10.0.0.6) replays TEARDOWN / PAUSE / SETUP with the id of the session
+of 10.0.0.5 -/
+example :
+    svPinned.findConn 2 = some ⟨2, [10,0,0,6], "", none⟩ ∧
+    (svPinned.findSession 0).map (·.authorIP) = some [10,0,0,5] ∧
+    ipEqual [10,0,0,6] [10,0,0,5] = false ∧
+    (svPinned.request 2 { method := .teardown, sid := some 0 } 3).2 = 400 ∧
+    (svPinned.request 2 { method := .pause, sid := some 0 } 3).1.sessions = svPinned.sessions ∧
+    -- whereas the owner is obeyed
+    (svPinned.request 0 { method := .pause, sid := some 0 } 3).2 = 200 := by decide
+
+/-- **While a session streams over an interleaved connection, a request from any other connection is
+refused and leaves the session as it is** – also from the author's own address.  For every server
+state, every session `ss` pinned to a connection `v` that is still attached to it, every other live
+connection `c` that would pass the author check (or is already linked to the session), every method
+and parameter: the answer is 400, the intruding connection is closed, and afterwards the session
+record differs from before only in `lastReq` (set before the pin is tested) and in that `c` is no
+longer among its associated connections; state, transport, set-up medias, the pin, the author, every
+other session, every other connection and both UDP listener maps are the same. -/
+theorem other_conn_rejected_unchanged (sv : Server) (c : Conn) (ss : Session) (sid v : Nat) (r : Req) (now : Int)
+    (hc : sv.findConn c.id = some c)
+    (hs : sv.findSession sid = some ss) (hr : r.sid = some sid)
+    (hlink : c.session = some sid ∨ (c.session = none ∧ ipEqual c.ip ss.authorIP = true ∧ c.zone = ss.authorZone))
+    (hpin : ss.tcpConn = some v) (hv : v ≠ c.id) (hatt : v ∈ ss.conns) :
+    let res := sv.request c.id r now
+    res.2 = 400 ∧
+    res.1.findSession sid = some { ss with lastReq := now, conns := ss.conns.filter (· != c.id) } ∧
+    (∀ sid', sid' ≠ sid → res.1.findSession sid' = sv.findSession sid') ∧
+    res.1.conns = sv.conns.filter (fun x => x.id != c.id) ∧
+    res.1.rtp = sv.rtp ∧ res.1.rtcp = sv.rtcp := by
+  intro res
+  have h : res = _ := Server.request_other_conn sv c ss sid v r now hc hs hr hlink hpin hv hatt
+  have hid : ss.id = sid := Server.findSession_id hs
+  rw [h]
+  refine ⟨rfl, ?_, ?_, rfl, rfl, rfl⟩
+  · rw [Server.findSession_dropConn]
+    have := Server.findSession_setSession_self sv { ss with lastReq := now, conns := ss.conns.filter (· != c.id) } ss
+      (by show sv.findSession ss.id = some ss; rw [hid]; exact hs)
+    rw [← hid]; exact this
+  · intro sid' hne
+    rw [Server.findSession_dropConn]
+    exact Server.findSession_setSession_ne sv _ sid' (by show sid' ≠ ss.id; rw [hid]; exact hne)
+
+/-- non-vacuity: connection 1 has the author's address (IPv4-mapped form, so it passes the author
+check) but is not the pinned connection -/
+example :
+    svPinned.findConn 1 = some ⟨1, [0,0,0,0,0,0,0,0,0,0,0xff,0xff,10,0,0,5], "", none⟩ ∧
+    ipEqual [0,0,0,0,0,0,0,0,0,0,0xff,0xff,10,0,0,5] [10,0,0,5] = true ∧
+    (svPinned.findSession 0).map (fun s => (s.tcpConn, s.conns, s.state)) = some (some 0, [0], .play) ∧
+    (svPinned.request 1 { method := .teardown, sid := some 0 } 3).2 = 400 ∧
+    ((svPinned.request 1 { method := .pause, sid := some 0 } 3).1.findSession 0).map (·.state) = some .play ∧
+    -- before PLAY the same connection would have been obeyed: the pin, not the address, refuses it
+    ((({} : Server).openConn 0 [10,0,0,5] "" |>.request 0 { method := .setup, proto := .tcp } 1).1
+      |>.openConn 1 [0,0,0,0,0,0,0,0,0,0,0xff,0xff,10,0,0,5] "" |>.request 1 { method := .play, sid := some 0 } 2).2 = 200 := by
+  decide
 
 end Rtsp.Peer.C19
